@@ -410,4 +410,67 @@ theorem lookupF_agree (env : Env) :
     simp only [lookupF]
     exact lookupBody_agree (lookupF_none_reg false env f) (lookupF_none_reg true env f) (lookupF_agree env f) env R n
 
+/-! ## frame: no lookup (either variant) registers or unregisters a name -/
+
+theorem amend_names (copy : Bool) (R : Registry) (r : Res) (f : Terminfo → Terminfo) :
+    (amend copy R r f).2.names = R.names := by
+  cases copy <;> cases r <;> rfl
+
+theorem finish_names (copy : Bool) (env : Env) (R : Registry) (r : Res) (a b : Bool) :
+    (finish copy env R r a b).2.names = R.names := by
+  unfold finish
+  split <;> split <;> simp [amend_names]
+
+theorem firstFound_names {look : Look} (h : ∀ R n, (look R n).2.names = R.names) (base : Name) :
+    ∀ (ss : List Name) (R : Registry), (firstFound look base ss R).2.names = R.names
+  | [], _ => rfl
+  | s :: ss, R => by
+    simp only [firstFound]
+    have := h R (base ++ s)
+    cases hl : look R (base ++ s) with
+    | mk o R' =>
+      rw [hl] at this
+      cases o with
+      | some r => exact this
+      | none => exact (firstFound_names h base ss R').trans this
+
+theorem searchTC_names {look : Look} (h : ∀ R n, (look R n).2.names = R.names) (env : Env) (R : Registry) (name : Name) :
+    (searchTC look env R name).2.2.names = R.names := by
+  unfold searchTC
+  split
+  · rfl
+  · split
+    · rename_i base _
+      have := firstFound_names h base sufTrue R
+      split <;> (rename_i heq; rw [heq] at this; exact this)
+    · rfl
+
+theorem search256_names {look : Look} (h : ∀ R n, (look R n).2.names = R.names) (t : Option Res) (R : Registry) (name : Name) :
+    (search256 look t R name).2.2.names = R.names := by
+  unfold search256
+  split
+  · rfl
+  · split
+    · rename_i base _
+      have := firstFound_names h base suf256 R
+      split <;> (rename_i heq; rw [heq] at this; exact this)
+    · rfl
+
+theorem lookupBody_names {look : Look} (h : ∀ R n, (look R n).2.names = R.names) (copy : Bool) (env : Env)
+    (R : Registry) (name : Name) : (lookupBody copy env look R name).2.names = R.names := by
+  unfold lookupBody
+  split
+  · rfl
+  · simp only
+    split
+    · exact (search256_names h _ _ _).trans (searchTC_names h _ _ _)
+    · exact (finish_names ..).trans ((search256_names h _ _ _).trans (searchTC_names h _ _ _))
+
+theorem lookupF_names (copy : Bool) (env : Env) :
+    ∀ (f : Nat) (R : Registry) (n : Name), (lookupF copy env f R n).2.names = R.names
+  | 0, _, _ => rfl
+  | f + 1, R, n => by
+    simp only [lookupF]
+    exact lookupBody_names (lookupF_names copy env f) copy env R n
+
 end Tcell.Lookup
